@@ -157,6 +157,7 @@ func verifyUnit1(l *Loader, pkgPath, key string, fixed map[string]Val, suffix st
 	ex.checkKept(fn, fx0.prefix)
 	if !ex.Bounded {
 		checkAssertsFired(c)
+		checkGhostsFired(c)
 	}
 	if !out.Reach.IsFalse() {
 		fxp := &fnExec{ex: ex, fn: fn, c: c, args: args, callCount: map[string]int{}, prefix: fx0.prefix}
